@@ -46,7 +46,7 @@ OP_SPACE = {
     # 147 ... 148.5 km: the preamplifier's required gain (28.22 ... 28.52 dB) crosses the extended-gain limits of A_med258
     # (28.3 dB) and A_med (28.5 dB) in 0.1 dB steps
     'length': [130, 15, 40, 70, 100, 165, 200, 147, 147.5, 148, 148.5],
-    'loss': ['0.2', '0.27', 'table_ok', 'table_over_elsewhere'],
+    'loss': ['0.2', '0.27', 'table_ok', 'table_over_elsewhere', '0.25'],      # 0.25 = exactly the Raman limit: not below it
     'si_power': [0, -2, 3],
     'f_max': [196.1e12, 193.3e12],
     'restrict': ['none', 'variety_list', 'booster', 'preamp', 'booster+preamp', 'variety_list+booster'],
